@@ -39,7 +39,7 @@ THEOREMS = [
     "Typedpy.C16.stubD_names_agree_iff",
     "Typedpy.C16.stubD_required_agree",
     "Typedpy.C16.stubD_kw_iff",
-    "Typedpy.C16.stubD_sigkw_agree",
+    "Typedpy.C16.stubD_sigkw_agree", "Typedpy.C16.stubD_sigkw_is_define",
     "Typedpy.C16.stubD_mandatory_first",
     "Typedpy.C16.stubD_init_text_parses",
     "Typedpy.C16.stubD_diamond_example",
